@@ -9,8 +9,33 @@ package dataset
 
 //@ assumed server.IsEntityEqual
 //@   pure
-//@ assumed dataset.findRefs
-//@   pure
+// the reference keys deleted together with a version are computed for that version's own entity and key, one predicate of
+// the version at a time with that predicate's own value; the keys of every predicate are collected; a failing look-up
+// aborts with the error and no keys
+//@ unit dataset.findRefs
+//@   prop C12 C01 C02
+//@   ghost foundG slice
+//@   ghost errG iface
+//@   ghost n0G int = 0
+//@   requires ent != nil && len(jsonKey) == 24
+// FRAME TAKEN ON TRUST (as it was while the whole function was assumed pure): the key lists of the caller are left alone; the
+// function only appends to a list of its own, but the loop cut forgets that older lists of the same element type are not
+// written, so the checker cannot prove it
+//@   frame-assumed preserves deduplicationStrategy.*, server.Entity.*, compactionInstruction.*, [][]uint8, Cell.*, map[string]int, map[string]interface{}
+//@   ensures [C12,C01,C02:a-failing-look-up-yields-no-keys-to-delete] ret1 != nil ==> len(ret0) == 0 && ret1 == errG
+//@   at call processRefs#1 before
+//@     assert [C12,C01,C02:reference-keys-are-computed-for-this-versions-own-entity-and-key] $arg0 == ent && $arg1 == jsonKey && $arg2 == txn && $arg3 == lookup
+//@     assert [C12,C01,C02:one-predicate-of-the-version-at-a-time-with-that-predicates-own-value] $arg5 == k && has(ent.References, k) && $arg4 == ent.References[k]
+//@     ghost n0G := len(refsToDel)
+//@   at call processRefs#1
+//@     ghost foundG := $result0
+//@     ghost errG := $result1
+//@   at call append#1 before
+//@     assert [C12,C01,C02:the-keys-of-every-predicate-are-collected] $arg0 == refsToDel && $arg1 == foundG && errG == nil
+//@   at call append#1
+//@     assert [C12,C01,C02:collecting-the-keys-of-a-predicate-keeps-the-ones-collected-before] len($result) == n0G + len(foundG)
+//@   loop 1
+//@     invariant [C12,C01,C02:the-versions-references-are-not-touched-while-their-keys-are-computed] ent.References == old(ent.References) && !foreign(refsToDel)
 
 // key layouts used by the compactor: the latest pointer of the version's entity in the version's dataset, and the
 // outgoing / incoming reference keys of a version (the layouts the write path of internal/server uses)
@@ -22,19 +47,48 @@ package dataset
 //@   safe slice
 //@ assumed (entity.Lookup).InternalIDForCURIE
 //@   pure
-//@ assumed dataset.toRefs
-//@   pure
+// the targets of a reference value: a single string is one target; a list is its elements, in order, one target each
+//@ unit dataset.toRefs
+//@   prop C12 C01 C02
+//@   ensures [C12,C01,C02:a-single-reference-is-exactly-one-target] typeof(stringOrArrayValue) == typeid("string") ==> ret1 == nil && len(ret0) == 1 && ret0[0] == cast(stringOrArrayValue, "string")
+//@   ensures [C12,C01,C02:a-string-list-is-taken-as-it-is] typeof(stringOrArrayValue) == typeid("[]string") ==> ret1 == nil && ret0 == cast(stringOrArrayValue, "[]string")
+//@   ensures [C12,C01,C02:every-element-of-a-reference-list-is-a-target-in-order] typeof(stringOrArrayValue) == typeid("[]interface{}") && ret1 == nil ==> len(ret0) == len(cast(stringOrArrayValue, "[]interface{}")) && (forall j int :: 0 <= j && j < len(ret0) ==> typeof(cast(stringOrArrayValue, "[]interface{}")[j]) == typeid("string") && ret0[j] == cast(cast(stringOrArrayValue, "[]interface{}")[j], "string"))
+//@   ensures [C12,C01,C02:a-missing-reference-value-is-an-error] stringOrArrayValue == nil ==> ret1 != nil
+//@   modifies []string
+//@   safe index
+//@   loop 1
+//@     invariant -1 <= $i && $i < len(cast(stringOrArrayValue, "[]interface{}")) && len(refs) == len(cast(stringOrArrayValue, "[]interface{}")) && !foreign(refs) && typeof(stringOrArrayValue) == typeid("[]interface{}")
+//@     invariant forall j int :: 0 <= j && j <= $i ==> typeof(cast(stringOrArrayValue, "[]interface{}")[j]) == typeid("string") && refs[j] == cast(cast(stringOrArrayValue, "[]interface{}")[j], "string")
 //@ unit dataset.processRefs
 //@   prop C12 C01 C02
 //@   requires ent != nil && len(jsonKey) == 24
-//@   frame-assumed preserves deduplicationStrategy.*, Entity.*, compactionInstruction.*, map[string]interface{}, Cell.*
+// FRAME TAKEN ON TRUST (as it was while the whole function was assumed pure): the key lists of the caller are left alone; the
+// function only appends to a list of its own, but the loop cut forgets that older lists of the same element type are not
+// written, so the checker cannot prove it
+//@   frame-assumed preserves deduplicationStrategy.*, server.Entity.*, compactionInstruction.*, [][]uint8, Cell.*, map[string]int, map[string]interface{}
 //@   safe slice
+//@   ghost targetsG []string
+//@   at call toRefs#1 before
+//@     assert [C12,C01,C02:the-targets-are-those-of-the-given-reference-value] $arg0 == stringOrArrayValue
+//@   at call toRefs#1
+//@     ghost targetsG := $result0
+//@   ensures [C12,C01,C02:an-outgoing-and-an-incoming-key-per-target-and-nothing-else] ret1 == nil ==> len(ret0) == 2 * len(targetsG)
+//@   ensures [C12,C01,C02:a-failing-look-up-yields-no-keys-to-delete] ret1 != nil ==> len(ret0) == 0
+//@   at call InternalIDForCURIE#1 before
+//@     assert [C12,C01,C02:the-predicate-of-the-keys-is-the-given-predicate] $arg1 == txn && $arg2 == k
+//@   at call InternalIDForCURIE#2 before
+//@     assert [C12,C01,C02:the-related-entity-of-the-keys-is-the-target-at-hand] $arg1 == txn && $arg2 == targetsG[$i1 + 1]
+//@   loop 1
+//@     invariant [C12,C01,C02:two-keys-per-target-walked-so-far] -1 <= $i && $i < len(refs) && refs == targetsG && len(result) == 2 * ($i + 1) && !foreign(result)
 //@   at call append#1 before
 //@     assert [C12,C01,C02:outgoing-reference-key-of-this-version] len($arg1) == 1 && len($arg1[0]) == 40 && encBE16($arg1[0], 0) == 3 && encBE64($arg1[0], 2) == ent.InternalID && encBE64($arg1[0], 10) == ent.Recorded && encBE64($arg1[0], 18) == predid && encBE64($arg1[0], 26) == relatedid && encBE16($arg1[0], 34) == (ent.IsDeleted ? 1 : 0) && encBE32($arg1[0], 36) == encBE32(jsonKey, 10)
 //@   at call append#2 before
 //@     assert [C12,C01,C02:incoming-reference-key-of-this-version] len($arg1) == 1 && len($arg1[0]) == 40 && encBE16($arg1[0], 0) == 2 && encBE64($arg1[0], 2) == relatedid && encBE64($arg1[0], 10) == ent.InternalID && encBE64($arg1[0], 18) == ent.Recorded && encBE64($arg1[0], 26) == predid && encBE16($arg1[0], 34) == (ent.IsDeleted ? 1 : 0) && encBE32($arg1[0], 36) == encBE32(jsonKey, 10)
+// ASSUMED (library): bytes.Equal is a function of its two arguments while nothing is written
+//@ spec sameBytes(a slice, b slice) bool
 //@ assumed bytes.Equal
 //@   pure
+//@   ensures result == sameBytes(a, b)
 //@ assumed reflect.DeepEqual
 //@   pure
 
@@ -56,6 +110,25 @@ package dataset
 //@     ghost equalG := $result
 //@   loop 1
 //@     invariant d.prev == old(d.prev) && d.prevJsonKey == old(d.prevJsonKey) && d.prevEntityBytes == old(d.prevEntityBytes) && len(rewriteKeys) == 0 && !equalG
+// the reference-only branch: the repeated reference keys of this version are computed for this version and predicate, the ones
+// of the remembered version for that version and the same predicate; this version's keys are deleted only if the two key lists
+// differ somewhere (equal lists mean both versions were written in one batch and share a single key, which must stay)
+//@   ghost curKeysG [][]uint8
+//@   ghost prevKeysG [][]uint8
+//@   at call processRefs#1 before
+//@     assert [C12,C01,C02:repeated-reference-keys-are-computed-for-this-version-and-the-predicate-at-hand] $arg0 == e && $arg1 == jsonKey && $arg2 == txn && $arg5 == k && $arg4 == stringOrArrayValue
+//@   at call processRefs#1
+//@     ghost curKeysG := $result0
+//@   at call processRefs#2 before
+//@     assert [C12,C01,C02:the-safety-comparison-uses-the-keys-of-the-remembered-version-for-the-same-predicate] $arg0 == d.prev && $arg1 == d.prevJsonKey && $arg2 == txn && $arg5 == k
+//@     assert [C12,C01,C02:the-safety-comparison-uses-the-remembered-versions-own-value-of-that-predicate] has(d.prev.References, k) ==> $arg4 == d.prev.References[k]
+//@   at call processRefs#2
+//@     ghost prevKeysG := $result0
+//@   at call append#5 before
+//@     assert [C12,C01,C02:only-this-versions-own-repeated-reference-keys-are-deleted] $arg1 == curKeysG
+//@     assert [C12,C01,C02:repeated-reference-keys-are-deleted-only-if-they-differ-from-the-remembered-versions-keys] len(curKeysG) != len(prevKeysG) || (exists j int :: 0 <= j && j < len(curKeysG) && !sameBytes(curKeysG[j], prevKeysG[j]))
+//@   loop 2
+//@     invariant [C12,C01,C02:keys-compared-so-far-are-equal] -1 <= $i && $i < len(refsToDel) && refsToDel == curKeysG && refsToDelPrev == prevKeysG && len(curKeysG) == len(prevKeysG) && identical && (forall j int :: 0 <= j && j <= $i ==> sameBytes(curKeysG[j], prevKeysG[j]))
 
 // every version of an entity is evaluated exactly once, oldest first, one step behind the iterator; only the first
 // evaluation says isFirst, only the one after the loop says isLast
@@ -77,8 +150,21 @@ package dataset
 //@   requires i != nil
 //@   ensures [C12,C01,C02:a-reset-empties-all-three-queues-so-rewrite-keys-and-values-stay-paired] len(i.DeleteKeys) == 0 && len(i.RewriteKeys) == 0 && len(i.RewriteValues) == 0
 //@   modifies compactionInstruction.DeleteKeys, compactionInstruction.RewriteKeys, compactionInstruction.RewriteValues
-//@ assumed dataset.toEntity
-//@   pure
+// the version handed to the strategy is decoded from the version's own bytes into an entity of its own
+//@ assumed json.Unmarshal
+//@   modifies server.Entity.*, map[string]interface{}, []interface{}
+//@ unit dataset.toEntity
+//@   prop C12 C01 C02
+//@   ghost targetG *server.Entity = nil
+//@   ghost errG iface
+//@   ensures [C12,C01,C02:the-entity-evaluated-is-the-one-decoded-from-the-versions-own-bytes] ret1 == nil ==> ret0 != nil && ret0 == targetG && fresh(ret0)
+//@   ensures [C12,C01,C02:a-version-that-does-not-decode-is-reported-not-evaluated] errG != nil ==> ret1 == errG && ret0 == nil
+//@   modifies server.Entity.*, map[string]interface{}, []interface{}
+//@   at call Unmarshal#1 before
+//@     assert [C12,C01,C02:the-versions-own-bytes-are-decoded] $arg0 == jsonBytes && typeof($arg1) == typeid("*server.Entity")
+//@     ghost targetG := cast($arg1, "*server.Entity")
+//@   at call Unmarshal#1
+//@     ghost errG := $result
 // ASSUMED for any strategy (proved for the deduplication strategy below): an instruction pairs its rewrite keys and values
 //@ assumed (dataset.CompactionStrategy).eval
 //@   pure
@@ -147,8 +233,24 @@ package dataset
 //@   prop C12 C01 C02
 //@   frame-assumed preserves Cell.*, compactionInstruction.*, CompactionWorker.*
 //@   requires ops != nil && len(ops.RewriteKeys) == len(ops.RewriteValues)
+//@   ghost bufferedG [][]uint8
+//@   ghost allG [][]uint8
+//@   at $1 call flush#1 before
+//@     assert [C12,C01,C02:the-strategys-buffered-change-log-deletes-are-fetched-in-the-flush-transaction] $arg1 == txn && $arg0 == strategy
+//@   at $1 call flush#1
+//@     ghost bufferedG := $result0
+//@   at $1 call append#1 before
+//@     assert [C12,C01,C02:what-is-deleted-is-the-collected-keys-followed-by-the-strategys-buffered-keys] $arg0 == ops.DeleteKeys && $arg1 == bufferedG
+//@   at $1 call append#1
+//@     ghost allG := $result
+//@     assert [C12,C01,C02:no-collected-or-buffered-key-is-left-out] len($result) == len(ops.DeleteKeys) + len(bufferedG)
+//@   at $1 call Get#1 before
+//@     assert [C12,C01,C02:the-existence-test-is-made-for-the-key-at-hand-in-the-flush-transaction] $arg0 == txn && $arg1 == allG[$i1 + 1]
 //@   at $1 call Delete#1 before
 //@     assert [C12,C01,C02:deletes-go-through-the-flush-transaction] $arg0 == txn
+//@     assert [C12,C01,C02:only-collected-or-buffered-keys-are-deleted] $arg1 == allG[$i1 + 1]
+//@   loop $1:1
+//@     invariant [C12,C01,C02:the-delete-loop-walks-the-collected-and-buffered-keys] -1 <= $i && $i < len(allG) && all == allG && len(ops.RewriteKeys) == len(ops.RewriteValues)
 //@   at $1 call Set#1 before
 //@     assert [C12,C01,C02:latest-pointer-rewritten-in-the-same-transaction-as-the-deletes] $arg0 == txn && key == ops.RewriteKeys[i] && val == ops.RewriteValues[i]
 //@     assert [C12:latest-pointer-rewritten-while-writers-are-excluded] exists l int :: has($held, l) && kindOf(l) == lockKind("server.Dataset", "WriteLock")
